@@ -444,7 +444,8 @@ class DictArithmetic(dict):
 
         """
         if isinstance(other, dict):
-            for k, v in other.items():
+            # other may be self, and terms that cancel are removed.
+            for k, v in tuple(other.items()):
                 self[k] -= v
         else:
             self[()] -= other
